@@ -105,6 +105,12 @@ type Machine struct {
 	sleeps      []value
 	ptrIDs      map[any]int
 
+	seg     *segState // non-nil in tsgen segment mode
+	tsSetup *segState // non-nil while a tsgen scenario function runs (registration intrinsics)
+	tokRead *segState // token table for property evaluation
+	inAtomic bool
+	redirects map[string]value // tsgen: callee name -> harness summary
+
 	// goroutines
 	gs     []*goroutine
 	cur    *goroutine
@@ -658,6 +664,8 @@ type vchan struct {
 	sendq  []*pendingSend
 	recvW  int // receivers currently waiting (for unbuffered rendezvous)
 	elemT  types.Type
+	shared     bool  // tsgen: closed-ness is a registered state cell
+	closedCell value // bool or symbolic bool (tsgen)
 }
 
 type pendingSend struct {
@@ -693,6 +701,15 @@ func (ch *vchan) canRecv() bool {
 }
 
 func (m *Machine) chanRecv(ch *vchan) (value, bool) {
+	if m.seg != nil && ch != nil {
+		if !ch.shared {
+			panic(unsupported{"receive on a channel that is not registered with vrtSharedChan"})
+		}
+		if m.decide(ch.closedCell, "chan-closed") {
+			return nil, false
+		}
+		panic(blockedSignal{"chan recv"})
+	}
 	if ch == nil {
 		m.block("recv on nil chan", func() bool { return false })
 	}
@@ -724,6 +741,16 @@ func (ch *vchan) take() (value, bool) {
 func (m *Machine) chanClose(ch *vchan) {
 	if ch == nil {
 		panic(targetPanic{m.plainErr("close of nil channel")})
+	}
+	if m.seg != nil {
+		if !ch.shared {
+			panic(unsupported{"close of a channel that is not registered with vrtSharedChan"})
+		}
+		if m.decide(ch.closedCell, "chan-closed") {
+			panic(targetPanic{m.plainErr("close of closed channel")})
+		}
+		ch.closedCell = true
+		return
 	}
 	if ch.closed {
 		panic(targetPanic{m.plainErr("close of closed channel")})
